@@ -647,6 +647,62 @@ fn c04_report(out: &mut Out, rng: &mut Sm, bits: usize, thorough: bool) {
             out.oracle(o.outputs.is_none(), || tag(&format!("round-2 share of aggregator {} altered", id)), || "accepted".into());
             out.count("c04.alter.round2");
         }
+        // --- messages of the wrong round, kind or level delivered to a state (typed substitutions that
+        // no byte alteration of a well-formed message produces): every one must be refused
+        {
+            let ap = Poplar1AggregationParam::try_from_prefixes(cands.iter().map(|p| IdpfInput::from_bools(p)).collect()).unwrap();
+            let mut st1 = vec![];
+            let mut v1 = vec![];
+            for id in 0..2 {
+                if let Init::Ok(s, v) = vinit(out, bits, &rep, &key, id, &cands) {
+                    st1.push(s);
+                    v1.push(v);
+                }
+            }
+            if st1.len() == 2 {
+                if let Some(m1) = vmsg(out, bits, &ap, &v1) {
+                    let mut st2 = vec![];
+                    let mut v2 = vec![];
+                    for id in 0..2 {
+                        if let Next::Continue(s, v) = vnext(out, bits, id, &st1[id], &m1) {
+                            st2.push(s);
+                            v2.push(v);
+                        }
+                    }
+                    if st2.len() == 2 {
+                        if let Some(done) = vmsg(out, bits, &ap, &v2) {
+                            for id in 0..2 {
+                                // the round-two message ("done") offered in round one: the sketch would go unchecked
+                                let r = vnext(out, bits, id, &st1[id], &done);
+                                out.oracle(matches!(r, Next::Err), || tag(&format!("round-two message offered to the round-one state of aggregator {}", id)), || "not refused".into());
+                                // the round-one message offered again in round two
+                                let r = vnext(out, bits, id, &st2[id], &m1);
+                                out.oracle(matches!(r, Next::Err), || tag(&format!("round-one message offered to the round-two state of aggregator {}", id)), || "not refused".into());
+                                out.count("c04.wrong-round");
+                            }
+                            // round-one shares combined with round-two shares, and a single share twice
+                            let mixed = vmsg(out, bits, &ap, &[v1[0].clone(), v2[1].clone()]);
+                            out.oracle(mixed.is_none(), || tag("round-one share combined with a round-two share"), || "not refused".into());
+                        }
+                    }
+                    // a message of the other field (inner vs leaf level) offered to this state
+                    let other_level = if level + 1 == bits { 0 } else { bits - 1 };
+                    if other_level != level {
+                        let oc = vec![input[..other_level + 1].to_vec()];
+                        let oap = Poplar1AggregationParam::try_from_prefixes(oc.iter().map(|p| IdpfInput::from_bools(p)).collect()).unwrap();
+                        let ov: Vec<_> = (0..2).filter_map(|id| match vinit(out, bits, &rep, &key, id, &oc) { Init::Ok(_, v) => Some(v), _ => None }).collect();
+                        if ov.len() == 2 {
+                            if let Some(om) = vmsg(out, bits, &oap, &ov) {
+                                let r = vnext(out, bits, 0, &st1[0], &om);
+                                out.oracle(matches!(r, Next::Err), || tag("message of the other field offered to a round-one state"), || "not refused".into());
+                            }
+                            let mixed = vmsg(out, bits, &ap, &[v1[0].clone(), ov[1].clone()]);
+                            out.oracle(mixed.is_none(), || tag("inner-level share combined with a leaf-level share"), || "not refused".into());
+                        }
+                    }
+                }
+            }
+        }
         // offsetting alterations of both aggregators' round-1 shares cancel: the sum is what is checked
         let f = |i: usize, v: &mut Poplar1FieldVec| match v {
             Poplar1FieldVec::Inner(x) => {
